@@ -512,3 +512,144 @@ func addPrevCycle(data []byte, rnd *vt.Rand) (out []byte, label string) {
 	}
 	return out, fmt.Sprintf("prevcycle len=%d newest=%s appended=%q", k, tk, kinds)
 }
+
+// ---------------------------------------------------------------------------
+// hostile embedded CMaps (ToUnicode and /Encoding of Type 0 fonts)
+
+type cmapShape struct {
+	name      string
+	cid       bool // a CID CMap (for /Encoding) instead of a ToUnicode CMap
+	codespace string
+	blocks    []string // complete begin...end sections
+}
+
+func repeatBlock(op string, n int, line string) string {
+	return fmt.Sprintf("%d begin%s\n%send%s\n", n, op, strings.Repeat(line+"\n", n), op)
+}
+
+var cmapShapes = []cmapShape{
+	{"wide-bfrange-1", false, "<00> <FF>", []string{repeatBlock("bfrange", 1, "<00000000> <FFFFFFFF> <0042>")}},
+	{"wide-bfrange-100", false, "<00> <FF>", []string{repeatBlock("bfrange", 100, "<00000000> <FFFFFFFF> <0042>")}},
+	{"wide-bfrange-cs4", false, "<00000000> <FFFFFFFF>", []string{repeatBlock("bfrange", 100, "<00000000> <FFFFFFFF> <0042>")}},
+	{"wide-bfrange-3byte", false, "<000000> <FFFFFF>", []string{repeatBlock("bfrange", 100, "<000000> <FFFFFF> <0042>"), repeatBlock("bfrange", 100, "<000000> <FFFFFF> <0043>")}},
+	{"bfrange-2byte-many", false, "<0000> <FFFF>", []string{repeatBlock("bfrange", 100, "<0000> <FFFF> <0041>")}},
+	{"bfrange-array-wide", false, "<00> <FF>", []string{repeatBlock("bfrange", 100, "<00000000> <FFFFFFFF> [<0041> <0042>]")}},
+	{"bfchar-4byte", false, "<00> <FF>", []string{repeatBlock("bfchar", 100, "<00000041> <0041>"), repeatBlock("bfrange", 50, "<00000000> <FFFFFFFF> <0042>")}},
+	{"notdef-wide", false, "<00> <FF>", []string{repeatBlock("notdefrange", 100, "<00000000> <FFFFFFFF> 0"), repeatBlock("bfrange", 100, "<00000000> <FFFFFFFF> <0042>")}},
+	{"onebyte", false, "<00> <FF>", []string{repeatBlock("bfrange", 1, "<00> <FF> <0041>"), repeatBlock("bfrange", 100, "<000000> <FFFFFF> <0041>")}},
+	{"under-budget", false, "<0000> <FFFF>", []string{repeatBlock("bfrange", 15, "<0000> <FFFE> <0041>"), repeatBlock("bfrange", 100, "<00000000> <FFFFFFFF> <0041>")}},
+	{"cid-wide", true, "<0000> <FFFF>", []string{repeatBlock("cidrange", 100, "<00000000> <FFFFFFFF> 0")}},
+	{"cid-cs4", true, "<00000000> <FFFFFFFF>", []string{repeatBlock("cidrange", 100, "<00000000> <FFFFFFFF> 0")}},
+	{"cid-onebyte", true, "<00> <FF>", []string{repeatBlock("cidrange", 1, "<00> <FF> 0"), repeatBlock("cidrange", 100, "<000000> <FFFFFF> 1")}},
+	{"cid-notdef-wide", true, "<0000> <FFFF>", []string{repeatBlock("cidrange", 1, "<0000> <FFFF> 0"), repeatBlock("notdefrange", 100, "<00000000> <FFFFFFFF> 1")}},
+	{"cid-under-budget", true, "<0000> <FFFF>", []string{repeatBlock("cidrange", 15, "<0000> <FFFE> 0"), repeatBlock("cidrange", 100, "<00000000> <FFFFFFFF> 7")}},
+}
+
+func (sh cmapShape) text() string {
+	var b strings.Builder
+	b.WriteString("/CIDInit /ProcSet findresource begin\n12 dict begin\nbegincmap\n")
+	if sh.cid {
+		b.WriteString("/CIDSystemInfo << /Registry (Adobe) /Ordering (Identity) /Supplement 0 >> def\n/CMapName /Hostile-H def\n/CMapType 1 def\n/WMode 0 def\n")
+	} else {
+		b.WriteString("/CIDSystemInfo << /Registry (Adobe) /Ordering (UCS) /Supplement 0 >> def\n/CMapName /Adobe-Identity-UCS def\n/CMapType 2 def\n")
+	}
+	fmt.Fprintf(&b, "1 begincodespacerange\n%s\nendcodespacerange\n", sh.codespace)
+	for _, blk := range sh.blocks {
+		b.WriteString(blk)
+	}
+	b.WriteString("endcmap\nCMapName currentdict /CMap defineresource pop\nend\nend\n")
+	return b.String()
+}
+
+// cmapStreamDict is the dictionary of an embedded CMap stream.
+func (sh cmapShape) streamDict() string {
+	if sh.cid {
+		return "/Type /CMap /CMapName /Hostile-H /CIDSystemInfo << /Registry (Adobe) /Ordering (Identity) /Supplement 0 >>"
+	}
+	return ""
+}
+
+// tamperCMap replaces the data of an embedded CMap -- a stream named by
+// /ToUnicode or by the /Encoding of a font -- by one of the hostile shapes.
+// The object changes its length: the offsets are repaired afterwards.
+func tamperCMap(data []byte, rnd *vt.Rand) (out []byte, label string) {
+	defer func() {
+		if r := recover(); r != nil {
+			out, label = nil, ""
+		}
+	}()
+	ts := syntax.Tokens(data)
+	objs := locate(ts)
+	type cand struct {
+		num int64
+		cid bool
+	}
+	var cands []cand
+	for i := 0; i+3 < len(ts); i++ {
+		if ts[i].Kind != syntax.TokName || ts[i+1].Kind != syntax.TokInt || ts[i+2].Kind != syntax.TokInt || !kw(ts[i+3], "R") {
+			continue
+		}
+		switch string(ts[i].Bytes) {
+		case "ToUnicode":
+			cands = append(cands, cand{ts[i+1].Int, false})
+		case "Encoding":
+			cands = append(cands, cand{ts[i+1].Int, true})
+		}
+	}
+	// only targets which are streams
+	var ok []cand
+	var where []located
+	for _, c := range cands {
+		for _, o := range objs {
+			if o.num != c.num || o.tok+3 >= len(ts) || ts[o.tok+3].Kind != syntax.TokDictOpen {
+				continue
+			}
+			m := &mutator{data: data, toks: ts}
+			end := m.valueEnd(o.tok + 3)
+			if end < len(ts) && kw(ts[end], "stream") {
+				ok = append(ok, c)
+				where = append(where, o)
+			}
+			break
+		}
+	}
+	if len(ok) == 0 {
+		return nil, ""
+	}
+	k := rnd.Intn(len(ok))
+	c, o := ok[k], where[k]
+	var shapes []cmapShape
+	for _, sh := range cmapShapes {
+		if sh.cid == c.cid {
+			shapes = append(shapes, sh)
+		}
+	}
+	sh := shapes[rnd.Intn(len(shapes))]
+	// the end of the object: behind endstream
+	afterEnd := -1
+	for j := o.tok + 3; j < len(ts); j++ {
+		if ts[j].Kind == syntax.TokStreamData {
+			afterEnd = ts[j].End
+			if i := bytes.Index(data[afterEnd:], []byte("endstream")); i >= 0 {
+				afterEnd += i + len("endstream")
+			}
+			break
+		}
+		if kw(ts[j], "endobj") {
+			break
+		}
+	}
+	if afterEnd < 0 {
+		return nil, ""
+	}
+	txt := sh.text()
+	var b bytes.Buffer
+	b.Write(data[:ts[o.tok+2].End])
+	fmt.Fprintf(&b, "\n<< %s /Length %d >>\nstream\n%s\nendstream", sh.streamDict(), len(txt), txt)
+	b.Write(data[afterEnd:])
+	kind := "tounicode"
+	if c.cid {
+		kind = "encoding"
+	}
+	return b.Bytes(), "cmap " + kind + "=" + sh.name
+}
